@@ -8,6 +8,7 @@ CONSTANTS
     Debug = FALSE
     HookMode = "panic_end"
     PvSet = TRUE
+    Hang = FALSE
     DrainOnRefusal = TRUE
 VIEW View
 CHECK_DEADLOCK FALSE
